@@ -107,13 +107,30 @@ inductive ErrVal
   | rpc (typ msg : Bytes)      -- `&vgirpc.RpcError{Type: typ, Message: msg}`
   | plain (msg : Bytes)        -- `errors.New(msg)`
   | wrapped (msg : Bytes)      -- `fmt.Errorf("wrapped: %w", errors.New(msg))`
+  /-- `&vgirpc.RpcError{Type, Message, RequestID, Kind, Traceback}` with every exported field
+  pre-populated by the handler (e.g. an error relayed from a downstream call). -/
+  | rpcFull (typ msg rid kind tb : Bytes)
+  /-- the SAME package-level `*vgirpc.RpcError` value (sentinel number `slot`) on every call. -/
+  | shared (slot : Nat)
   deriving Repr, DecidableEq
+
+/-- `Error()` of the family's sentinel errors. -/
+def sharedMessage : Nat → Bytes
+  | 0 => [0x4c, 0x6f, 0x6f, 0x6b, 0x75, 0x70, 0x45, 0x72, 0x72, 0x6f, 0x72, 0x3a, 0x20, 0x6e, 0x6f, 0x74, 0x20, 0x66,
+          0x6f, 0x75, 0x6e, 0x64]                                   -- "LookupError: not found"
+  | 1 => [0x56, 0x61, 0x6c, 0x75, 0x65, 0x45, 0x72, 0x72, 0x6f, 0x72, 0x3a, 0x20, 0x73, 0x68, 0x61, 0x72, 0x65, 0x64,
+          0x20, 0x73, 0x65, 0x6e, 0x74, 0x69, 0x6e, 0x65, 0x6c]     -- "ValueError: shared sentinel"
+  | _ => [0x3a, 0x20]                                                -- &RpcError{} : ": "
 
 /-- `err.Error()`. -/
 def ErrVal.message : ErrVal → Bytes
   | .rpc t m => t ++ colonSpace ++ m
   | .plain m => m
   | .wrapped m => wrapPrefix ++ m
+  -- whatever else the error value carries (a request id of its own, a kind, a traceback), and
+  -- however often the same value was returned before, `Error()` is "Type: Message" …
+  | .rpcFull t m _ _ _ => t ++ colonSpace ++ m
+  | .shared slot => sharedMessage slot
 
 /-- Values a scripted handler can panic with. -/
 inductive PanicVal
@@ -169,7 +186,8 @@ def ridOpt (rid : Bytes) : Option Bytes := if rid = [] then none else some rid
 /-- `writeLogBatch(w, schema, msg, serverID, requestID)`. -/
 def writeLogBatch (m : LogMessage) (rid : Bytes) : Batch := .log m.level m.msg m.extras (ridOpt rid)
 
-/-- `writeErrorBatch(w, schema, err, serverID, requestID, debug)`. -/
+/-- `writeErrorBatch(w, schema, err, serverID, requestID, debug)`: the request id written is the
+one of the call being answered — never one the error value carries or was given by an earlier call. -/
 def writeErrorBatch (e : SrvErr) (rid : Bytes) : Batch := .exc e.msg (ridOpt rid)
 
 def Batch.isLog : Batch → Bool
